@@ -118,14 +118,32 @@ func Targets() []interface{} {
 	return append(moreTargets(), baseTargets()...)
 }
 
+// prefilled returns targets that already hold something: slices with a little spare capacity, maps with an entry,
+// pointers that are set — what a caller reusing a value between Unmarshal calls passes in.
+func prefilled() []interface{} {
+	s1 := make([]int, 0, 1)
+	s2 := make([]string, 1, 2)
+	s3 := make([]interface{}, 0, 3)
+	s4 := make([][]byte, 0, 1)
+	m1 := map[string]int{"a": 1}
+	m2 := map[string]interface{}{"x": []interface{}{1}}
+	n := 7
+	pn := &n
+	tg := tagged{A: 1, C: make([]byte, 0, 1), F: make([]interface{}, 0, 1), D: &tagged{}, E: map[string]interface{}{"k": 1}}
+	h := holder{L: make([]*embedsHidden, 0, 1), O: make(octets, 0, 1)}
+	arr := [3]int{9, 9, 9}
+	var iface interface{} = []interface{}{"old"}
+	return []interface{}{&s1, &s2, &s3, &s4, &m1, &m2, &pn, &tg, &h, &arr, &iface}
+}
+
 func moreTargets() []interface{} {
-	return []interface{}{
+	return append(prefilled(), []interface{}{
 		new(map[keyName]int), new(map[keyName]interface{}), new(map[int]string), new(map[smallInt]int), new(map[string]*tagged),
 		new([4]octet), new(octets), new([]octet), new(smallInt), new(keyName), new([]keyName),
 		new(embedsHidden), new(*embedsHidden), new([]embedsHidden), new(map[string]embedsHidden), new([1]*embedsHidden),
 		new(annotatedViaEmbedded), new(holder), new([]*tagged), new(*[]int), new([2]tagged), new(***int),
 		new(func()), new(chan int), new(complex128), new(struct{}), new([0]int), new(map[string][2]byte),
-	}
+	}...)
 }
 
 func baseTargets() []interface{} {
